@@ -34,3 +34,11 @@ claim("C18",
       "Symbolic model checking in an extended-real element model (nan/+inf/-inf flags with IEEE rules): at t=0 (any v>=0) and at v=0 (any t>=0), for all finite log-moneyness and K>0, every price is proved non-NaN, finite and equal to the then-certain payoff, analytic deltas equal their limits away from the strike, negative t or v is proved to raise ValueError on every path, and BlackScholes/WhalleyWilmott hedgers are proved to give finite hedges and P&L on symbolic positive paths (T<=4) including the last step.",
       "No signed zeros, no finite overflow/underflow ('tiny' t, v excluded); autograd-based Greeks (lookback delta, American-binary gamma) are outside the extended-real model.",
       "DESIGN.md §3 C18", "symbolic execution in an extended-real (NaN/inf-aware) term model + z3, counterexample replay")
+claim("C07",
+      "Symbolic model checking of the boundary-value problem that characterises the expectation: for each executed price term z3 proves the Black-Scholes PDE P_t = 1/2 v^2 S^2 P_SS on the whole open domain (European, binary, American binary and both lookback branches; calls and puts), the terminal condition P(t=0) = payoff in the extended-real model, the barrier/running-maximum boundary conditions (American binary = 1 at the barrier, lookback dP/dM = 0 at M = S, continuity at max = strike), and the wiring of modules / from_derivative / BlackScholes(derivative) / omitted arguments to the derivative's strike, call flag and simulated state.",
+      "The expectation integral itself is not encoded: Feynman-Kac + uniqueness is a trusted theorem; only the value at t=0 (not the limit t->0+) is checked; exact reals.",
+      "DESIGN.md §3 C07", SMT)
+claim("C09",
+      "Symbolic model checking on the whole open domain: parity identities, [0,1] bounds, call <= spot, put <= strike, American binary >= European binary and == 1 once the barrier is reached, lookback >= European while max < strike, and the signs of the symbolic partial derivatives of the executed price terms (dP/dS > 0, P_SS >= 0, vega >= 0, dP/dt >= 0, binary call increasing in spot), from which monotonicity/convexity between any two points follow by the mean-value theorem.",
+      "Mean-value theorem trusted; inequalities needing analytic facts about Phi beyond the axiom list (call >= intrinsic, American binary <= 1, lookback >= locked-in payoff) are not decided and not claimed.",
+      "DESIGN.md §3 C09", SMT)
